@@ -854,7 +854,11 @@ func (s *Server) CancelRequest(id string) {
 	verifPointS("srv.cancel.lock", id)
 	s.mu.Lock()
 	defer s.mu.Unlock()
-	if s.cancelLocked(id) {
+	if cancel, ok := s.used[id]; ok {
+		// Cancel the request but keep its ID reserved until its reply has
+		// been delivered, so the ID cannot be reused while the call is still
+		// in flight.
+		cancel()
 		s.log("Cancelled request %s by client order", id)
 	}
 }
